@@ -733,7 +733,7 @@ def _apply_hints(body, hints, fname):
     return out, lost
 
 
-PROBE = None   # None | "entry" | "tail": set by build(..., probe=)
+# vacuity-probe mode of the current build: None | "entry" | "tail" (thread-local, set by build(..., probe=))
 
 
 def splice_fn(text, spec, unit_rewrites=()):
@@ -758,6 +758,7 @@ def splice_fn(text, spec, unit_rewrites=()):
             if n == 0:
                 lost.append("bodysub /%s/" % rx)
         hints = list(spec.hints)
+        PROBE = getattr(_TLS, "probe", None)
         if PROBE and (spec.requires or spec.ensures) and not spec.external_body:
             # vacuity probe (thorough tier): this `assert(false)` must FAIL; if it verifies, the contract's
             # preconditions (entry) or the callee contracts on the way to the end of the body (tail) are contradictory
@@ -862,21 +863,21 @@ class Emitted:
 
 def build(unit, repo_root, source_map=None, probe=None):
     """source_map: {relpath in unit file: relpath actually read} (the jiff-static copy of shared/)."""
-    global PROBE
-    PROBE = probe
+    _TLS.probe = probe
     try:
         return _build(unit, repo_root, source_map)
     finally:
-        PROBE = None
+        _TLS.probe = None
 
 
-_MACROS = []   # [(name, pattern, transcriber)] of the unit being built
+import threading
+_TLS = threading.local()   # per-thread build state (units are built concurrently by the driver): macros, probe mode
 
 
 def _item_text(src, it):
     """item text with the unit's `//@expand` macros expanded (R14)"""
     txt = src.item_text(it)
-    for name, pat, tr in _MACROS:
+    for name, pat, tr in getattr(_TLS, "macros", []):
         if (name + "!") in txt:
             from . import macroexp
             try:
@@ -887,15 +888,14 @@ def _item_text(src, it):
 
 
 def _build(unit, repo_root, source_map=None):
-    global _MACROS
-    _MACROS = []
+    _TLS.macros = []
     for name, rel in unit.expands:
         from . import macroexp
         try:
             pat, tr = macroexp.parse_definition(open(os.path.join(repo_root, rel)).read(), name)
         except (OSError, macroexp.MacroError) as e:
             raise ExtractError("lost-anchor", "macro_rules! %s in %s: %s" % (name, rel, e))
-        _MACROS.append((name, pat, tr))
+        _TLS.macros.append((name, pat, tr))
     em = Emitted()
     source_map = source_map or {}
     chunks = []
